@@ -221,6 +221,25 @@ func corpus() []*pbfgen.FileDesc {
 	e := &pbfgen.FileDesc{Header: &pbfgen.Header{}}
 	e.Blocks = append(e.Blocks, &pbfgen.Block{OmitStringTable: true}, &pbfgen.Block{Strings: []string{""}, Groups: []*pbfgen.Group{{}, {Items: []pbfgen.Item{{Dense: &pbfgen.Dense{}}}}}})
 	out = append(out, e, &pbfgen.FileDesc{Header: &pbfgen.Header{HasBBox: true, Left: -1, Right: 1, Top: 2, Bottom: -2}})
+	// 6..: see fixedCorpus (raw trees with an unknown fixed32/fixed64 field ending a message)
+	// 6. unknown fixed64/fixed32 fields ending every message of every block (canonical and permuted)
+	for _, perm := range []bool{false, true} {
+		fx := *out[2]
+		fx.Blocks = nil
+		for i, b := range out[2].Blocks {
+			nb := *b
+			nb.Layout = pbfgen.Layout{FixedLast: true, Permute: perm, Seed: int64(i)}
+			fx.Blocks = append(fx.Blocks, &nb)
+		}
+		fd := *out[0]
+		fd.Blocks = nil
+		for i, b := range out[0].Blocks {
+			nb := *b
+			nb.Layout = pbfgen.Layout{FixedLast: true, Permute: perm, Seed: int64(i)}
+			fd.Blocks = append(fd.Blocks, &nb)
+		}
+		out = append(out, &fx, &fd)
+	}
 	// 5. a file that starts directly with data (no header block), as after a resume
 	nh := *out[0]
 	nh.Header = nil
